@@ -1031,7 +1031,14 @@ def build_C18(ctx, tier, rnd):
 
 
 def build_C19(ctx, tier, rnd):
-    return build_life(ctx, tier, rnd, labels=['s', 'ok', 'fail', 'R', 'u1', 'u2', 'u3', 'rb1', 'rb2', 'dJ', 'RV', 'q'])
+    hs = build_life(ctx, tier, rnd, labels=['s', 'ok', 'fail', 'R', 'u1', 'u2', 'u3', 'rb1', 'rb2', 'dJ', 'RV', 'q'])
+    # a hidden, non-empty stray directory in patches/ while patches fail, are rolled back and are superseded
+    al = gen.Alphabet(ctx)
+    for i, seq in enumerate((('dJh', 'u1', 's', 'fail', 'q'), ('u1', 'dJh', 's', 'fail', 'q', 'R', 'q'), ('u1', 's', 'ok', 'u2', 'dJh', 'rb2', 'q'),
+                             ('u1', 's', 'ok', 'dJh', 'u2', 'u3', 'q', 's', 'fail', 'q'), ('dJh', 'u1', 's', 'ok', 'u2', 's', 'ok', 'q'),
+                             ('u1', 'dJh', 'rb1', 'q', 'u2', 's', 'R', 'q'), ('dJh', 'u2', 'u1', 's', 'ok', 'R', 'q'))):
+        hs.append(('c19h%d' % i, [al.init] + al.seq(seq)))
+    return hs
 
 
 def trig_life(o, pre, st):
